@@ -5,7 +5,7 @@
 //   op init    g stream cancel_at allocfail_at
 //   op shoot   g stream slot cancel_at allocfail_at s1_at s1_kind s2_at s2_kind s3_at s3_kind
 //   op reinit  g stream                                            (reset(); same setters; initialize)
-//   op destroy g
+//   op destroy g               | dump g (smart_dump and read-only accessors between shots)
 //   op fresh   slot            | prefill slot n | reserve slot n | shrink slot | copy from to
 //
 // Oracles (only the property under check reports):
@@ -14,12 +14,31 @@
 //   C04  every produced event is well-formed and was produced within the step budget.
 //   C08  the same plans in the ASan+UBSan flavour: a sanitizer report kills the worker (runner).
 #include "configs.h"
+#include "simfs.h"
 #include "simrandom.h"
 #include <memory>
 
 namespace sim {
 
+std::string ga_dataset(const std::string & name);
+std::string ga_root();
+
 namespace {
+
+const char * GEN_GA_NUC[4] = {"Se82", "Mo100", "Cd116", "Nd150"};
+const char * GEN_GA_PROC[4] = {"g0", "g2", "g22", "g4"};
+const char * GEN_GA_SETS[3] = {"small", "medium", "steep"};
+/// gA datasets are durable state of the whole run: installed once, before any operation, from the plan header
+void install_ga(const Plan & plan)
+{
+  fs::reset();
+  i64 mask = plan.hint("ga", 0);
+  for (int n = 0; n < 4; n++) for (int pr = 0; pr < 4; pr++) {
+    int bit = n * 4 + pr;
+    if (!((mask >> bit) & 1)) continue;
+    fs::put(ga_root() + "/data/dbd_gA/v1.0/" + GEN_GA_NUC[n] + "/" + GEN_GA_PROC[pr] + "/tab_ocdf.data", ga_dataset(GEN_GA_SETS[(size_t)((n + pr + (mask >> 16)) % 3)]));
+  }
+}
 
 struct Canon
 {
@@ -72,10 +91,12 @@ u64 shot_budget(const bxdecay0::decay0_generator & g)
 const u64 INIT_BUDGET = 20000000;
 
 /// the canonical history for (cfg, stream, steers)
+i64 g_ga_mask = 0; // durable gA environment of the current run (part of every canonical cache key)
+
 const Canon & canonical(const GenCfg & cfg, const Op & shoot)
 {
   static std::map<std::string, Canon> cache;
-  std::string key = cfg.key() + "|" + std::to_string(shoot.arg(1)) + "|" + steer_key(shoot, 5);
+  std::string key = cfg.key() + "|" + std::to_string(shoot.arg(1)) + "|" + steer_key(shoot, 5) + (cfg.mode >= 21 ? "|ga" + std::to_string(g_ga_mask) : "");
   auto it = cache.find(key);
   if (it != cache.end()) return it->second;
   if (cache.size() > 20000) cache.clear();
@@ -132,6 +153,8 @@ Outcome run_gen(const Plan & plan, const RunCtx & ctx)
   std::unique_ptr<bxdecay0::event> slot[NS];
   std::string slot_state[NS];
   for (int i = 0; i < NS; i++) { slot[i].reset(new bxdecay0::event); slot_state[i] = "fresh"; }
+  install_ga(plan);
+  g_ga_mask = plan.hint("ga", 0);
   const bool check07 = ctx.prop == "C07";
   // the canonical history costs one extra initialise per (configuration, stream): computed where it
   // decides something (C07) or adds fresh-object generation paths under the sanitizers (C08 histories)
@@ -260,7 +283,7 @@ Outcome run_gen(const Plan & plan, const RunCtx & ctx)
       cover.insert(cfg_class(I.cfg) + "/" + I.cfg.nuc + "/slot-" + slot_state[s] + "/prev-" + I.last + "/fault-" + fk);
       // C04 oracle
       {
-        std::string why = malformed_reason(ev, I.cfg.nuc);
+        std::string why = malformed_reason(ev, I.cfg.mode >= 21 ? std::string("dbd_gA") : I.cfg.nuc);
         if (!why.empty()) {
           out.ctr["malformed_events"]++;
           if (check04) {
@@ -295,6 +318,11 @@ Outcome run_gen(const Plan & plan, const RunCtx & ctx)
       I.shots++;
       I.last = "shot";
       slot_state[s] = "reused";
+    } else if (op.k == "dump") {
+      if (!I.gen) { out.ctr["ops_skipped"]++; continue; }
+      std::ostringstream sink;
+      try { I.gen->smart_dump(sink, "", ""); (void)I.gen->get_bb_params(); (void)I.gen->get_event_count(); } catch (std::exception &) {}
+      tr.adds("dump");
     } else if (op.k == "fresh") {
       int s = (int)(((op.arg(0) % NS) + NS) % NS);
       slot[s].reset(new bxdecay0::event); slot_state[s] = "fresh";
@@ -343,8 +371,9 @@ GenCfg pick_cfg(Rng & r, bool cheap_only)
   GenCfg c;
   static const std::vector<std::string> cascades = {"Co60", "Bi207+Pb207m", "Bi214+Po214", "Tl208", "Eu152", "Ac228", "Pa234m", "Ca48+Sc48", "Y88", "I134", "Bi212+Po212", "Eu154", "Ta182"};
   u64 d = r.below(100);
-  if (d < 40) { c.cat = 2; c.nuc = r.pick(bkg_names()); }
-  else if (d < 55) { c.cat = 2; c.nuc = r.pick(cascades); }
+  if (d < 36) { c.cat = 2; c.nuc = r.pick(bkg_names()); }
+  else if (d < 50) { c.cat = 2; c.nuc = r.pick(cascades); }
+  else if (d < 56) { c.cat = 1; c.nuc = GEN_GA_NUC[r.below(4)]; c.level = 0; c.mode = (int)r.range(21, 24); return c; } // gA process (dataset may be absent: refused)
   else {
     const auto & cat = cheap_only ? dbd_cheap() : dbd_catalogue();
     if (cat.empty()) { c.cat = 2; c.nuc = "Co60"; return c; }
@@ -409,6 +438,7 @@ Plan gen_hist(u64 seed, u64 idx, const RunCtx & ctx)
   Rng r(hmix(hmix(seed, hstr("gen-hist")), idx));
   bool faults = (idx % 3) != 0;
   p.hdr["faults"] = faults ? "1" : "0";
+  p.hdr["ga"] = std::to_string((i64)(r.next() & 0x3ffff) | (r.chance(0.7) ? 0xffff : 0)); // which (nuclide, process) datasets exist on the simulated disk
   bool cheap = ctx.tier != "thorough" || r.chance(0.8);
   int ng = (int)r.range(1, 3);
   std::vector<GenCfg> cfgs;
@@ -448,7 +478,8 @@ Plan gen_hist(u64 seed, u64 idx, const RunCtx & ctx)
     else if (d < 76) { Op o; o.k = "reserve"; o.a = {(i64)r.below(NS), r.range(1, 64)}; p.ops.push_back(o); }
     else if (d < 79) { Op o; o.k = "shrink"; o.a = {(i64)r.below(NS)}; p.ops.push_back(o); }
     else if (d < 82) { Op o; o.k = "copy"; o.a = {(i64)r.below(NS), (i64)r.below(NS)}; p.ops.push_back(o); }
-    else if (d < 89) { Op o; o.k = "reinit"; o.a = {g, (i64)r.below(1000)}; p.ops.push_back(o); }
+    else if (d < 87) { Op o; o.k = "reinit"; o.a = {g, (i64)r.below(1000)}; p.ops.push_back(o); }
+    else if (d < 89) { Op o; o.k = "dump"; o.a = {g}; p.ops.push_back(o); }
     else if (d < 95) {
       // replace the instance: destroy, construct, configure (same or another configuration), initialise
       if (r.chance(0.5)) cfgs[(size_t)g] = pick_cfg(r, cheap);
